@@ -244,6 +244,13 @@ def run_case(ns, ctx, case):
               s = new_sequential(kids, named)
               features.add("sequential" + ("-empty" if k == 0 else ("-named" if named else "")))
               trail.append(f"m{s} = Sequential({kids}, named={named})")
+              if rng.random() < 0.2:
+                  # a container whose only entry is another container (a backbone wrapped once more): the inner one is a submodule like any other -
+                  # mode changes reach it, what is added to it later is seen through the outer one
+                  inner_ = s
+                  s = new_sequential([inner_], False)
+                  features.add("sequential-of-one-sequential")
+                  trail.append(f"m{s} = Sequential(m{inner_})")
               assign(host, name, "M", s, via)
           elif r < 0.82:
               # a registration the library refuses (wrong kind of object) is a no-op: the tree is exactly what it was
